@@ -137,7 +137,7 @@ func (p *probeRun) syscase(note string) Case {
 	return Case{Profile: s.Profile, Opts: s.Opts, Static: s.Static, Dyn: s.Dyn, Ops: p.Ops, Obs: p.Obs, Note: note}
 }
 
-func validProof(w *World, ki int) *Proof {
+func cfgValidProof(w *World, ki int) *Proof {
 	k := w.keys[ki]
 	return &Proof{Parses: true, TypOK: true, Jwk: 2, JwkKey: k.H, Signer: k.H, HasIat: true, IatAge: 0, Jti: true, HtmOK: true, Htu: "HtuExact"}
 }
